@@ -15,7 +15,7 @@ theorem traversal_complete (q : Queue) (f : QueueSpec.Fifo) (m : Mem) (h : Sim q
     (C07Deque.drain q.d q.size {} m).1 = f.items.reverse ∧ (C07Deque.drain q.d q.size {} m).2.2 = m ∧
     Queue.iterNext (C07Deque.drain q.d q.size {} m).2.1 q m =
       (.iterEnd, none, (C07Deque.drain q.d q.size {} m).2.1, m) := by
-  obtain ⟨hi, habs⟩ := h
+  obtain ⟨⟨hi, _⟩, habs⟩ := h
   obtain ⟨t1, t2, t3⟩ := C07Deque.traversal_complete q.d m hi
   have habs' : q.d.abs = f.items.reverse := habs
   exact ⟨by rw [← habs']; exact t1, t2, t3⟩
@@ -26,7 +26,7 @@ theorem next_refines (it : Deque.Iter) (q : Queue) (f : QueueSpec.Fifo) (m : Mem
     (Queue.iterNext it q m).2.1 = (DequeSpec.curNext f.view it.cur).2.1 ∧
     (Queue.iterNext it q m).2.2.1.cur = (DequeSpec.curNext f.view it.cur).2.2 ∧
     (Queue.iterNext it q m).2.2.2 = m := by
-  obtain ⟨hi, habs⟩ := h
+  obtain ⟨⟨hi, _⟩, habs⟩ := h
   have habs' : q.d.abs = f.items.reverse := habs
   obtain ⟨a1, a2, a3, a4⟩ := Deque.iterNext_spec it q.d m hi
   rw [habs'] at a1 a2 a3
@@ -39,11 +39,11 @@ theorem replace_refines (it : Deque.Iter) (q : Queue) (f : QueueSpec.Fifo) (x : 
     (Queue.iterReplace it q x m).2.1 = (DequeSpec.curReplace f.view it.cur x).2.1 ∧
     (Queue.iterReplace it q x m).2.2.1.abs = (DequeSpec.curReplace f.view it.cur x).2.2 ∧
     (Queue.iterReplace it q x m).2.2.1.Inv ∧ (Queue.iterReplace it q x m).2.2.2 = m := by
-  obtain ⟨hi, habs⟩ := h
+  obtain ⟨⟨hi, htr⟩, habs⟩ := h
   have habs' : q.d.abs = f.items.reverse := habs
   obtain ⟨a1, a2, a3, a4, a5⟩ := Deque.iterReplace_spec it q.d x m hi
   rw [habs'] at a1 a2 a3
-  exact ⟨a1, a2, a3, a4, a5⟩
+  exact ⟨a1, a2, a3, ⟨a4, (Deque.iterReplace_triple it q.d x m).trans htr⟩, a5⟩
 
 /-- **zip**: lock-step over two queues, stops at the shorter one; `zip_iter_replace` replaces the pair
 yielded last -/
@@ -58,13 +58,18 @@ theorem zip_refines (it : Deque.Iter) (q1 q2 : Queue) (f1 f2 : QueueSpec.Fifo) (
       (Queue.zipReplace it q1 q2 x y m).2.2.1.abs = (DequeSpec.zipReplace f1.view f2.view it.cur x y).2.2.1 ∧
       (Queue.zipReplace it q1 q2 x y m).2.2.2.1.abs = (DequeSpec.zipReplace f1.view f2.view it.cur x y).2.2.2 ∧
       (Queue.zipReplace it q1 q2 x y m).2.2.2.2 = m) := by
-  obtain ⟨hi1, habs1⟩ := h1
-  obtain ⟨hi2, habs2⟩ := h2
+  obtain ⟨⟨hi1, _⟩, habs1⟩ := h1
+  obtain ⟨⟨hi2, _⟩, habs2⟩ := h2
   have e1 : q1.d.abs = f1.items.reverse := habs1
   have e2 : q2.d.abs = f2.items.reverse := habs2
   obtain ⟨a1, a2, a3, a4⟩ := Deque.zipNext_spec it q1.d q2.d m hi1 hi2
   obtain ⟨b1, b2, b3, b4, _, _, b7⟩ := Deque.zipReplace_spec it q1.d q2.d x y m hi1 hi2
   rw [e1, e2] at a1 a2 a3 b1 b2 b3 b4
   exact ⟨⟨a1, a2, a3, a4⟩, ⟨b1, b2, b3, b4, b7⟩⟩
+
+/-- non-vacuity: a wrapped, exactly full ring is traversed completely, newest first -/
+example : (C07Deque.drain (Deque.mk 4 4 3 3 [12, 13, 14, 11] .conf) 4 {} {}).1 = [11, 12, 13, 14] ∧
+    Sim ⟨Deque.mk 4 4 3 3 [12, 13, 14, 11] .conf, .conf⟩ ⟨[14, 13, 12, 11]⟩ := by
+  refine ⟨by decide, by decide, by decide⟩
 
 end CC.Properties.C07Queue
